@@ -359,26 +359,31 @@ Section LinkSystem.
 
   (* ---------------------------------------------------------------- histories (honest storage) *)
 
+  (* OStoreW: a Store whose storage writer misbehaves (w_sched / w_cap of [w]); the storage itself
+     stays honest *)
   Inductive lop :=
   | OStore (lp : lproto) (v : dm)
+  | OStoreW (w : wbeh) (lp : lproto) (v : dm)
   | OCompute (lp : lproto) (v : dm)
   | OLoad (f : lform) (l : link).
 
   Inductive oout := OutS (s : sout) | OutL (o : lout).
 
-  Definition step (sk : skind) (trusted : bool) (st : storage) (op : lop) : oout * storage :=
+  Definition step (latch : bool) (sk : skind) (trusted : bool) (st : storage) (op : lop) : oout * storage :=
     match op with
-    | OStore lp v => let (s, st') := store true sk honest_w st lp v in (OutS s, st')
+    | OStore lp v => let (s, st') := store latch sk honest_w st lp v in (OutS s, st')
+    | OStoreW w lp v => let (s, st') := store latch sk w st lp v in (OutS s, st')
     | OCompute lp v => (OutS (compute lp v), st)
     | OLoad f l => (OutL (load_any f trusted (honest_read sk st l) l), st)
     end.
 
-  Fixpoint run (sk : skind) (trusted : bool) (st : storage) (ops : list lop) : list oout * storage :=
+  Fixpoint run (latch : bool) (sk : skind) (trusted : bool) (st : storage) (ops : list lop)
+    : list oout * storage :=
     match ops with
     | [] => ([], st)
     | op :: r =>
-      let (o, st1) := step sk trusted st op in
-      let (os, st2) := run sk trusted st1 r in (o :: os, st2)
+      let (o, st1) := step latch sk trusted st op in
+      let (os, st2) := run latch sk trusted st1 r in (o :: os, st2)
     end.
 End LinkSystem.
 
